@@ -33,6 +33,7 @@ partial def loop (h : IO.FS.Stream) (out : IO.FS.Stream) : IO Unit := do
   let l := line.trimAsciiEnd.toString
   if !l.isEmpty then
     out.putStrLn (dispatch l)
+    out.flush
   loop h out
 
 def main : IO Unit := do
